@@ -1059,8 +1059,9 @@ func main() {
 	must(os.WriteFile(filepath.Join(*out, "Sites.lean"), []byte(sb5.String()), 0o644))
 
 	// ---------- G9: translated functions ----------
-	fnText, fnUnsupp := genFns(infos)
+	fnText, fnValText, fnUnsupp := genFns(infos)
 	must(os.WriteFile(filepath.Join(*out, "Fn.lean"), []byte(fnText), 0o644))
+	must(os.WriteFile(filepath.Join(*out, "FnVal.lean"), []byte(fnValText), 0o644))
 	facts["fn_unsupported"] = fnUnsupp
 
 	b, _ := json.MarshalIndent(facts, "", " ")
